@@ -683,19 +683,19 @@ Proof.
 Qed.
 
 (* the values returned by search_many / diversify_solutions are a function of the inputs only: whatever the number of pools
-   (none configured, or n >= 1), result i is op(solution i) *)
+   (none configured, or any n >= 0 — an empty vector of pools included), result i is op(solution i) *)
 Theorem search_many_values : forall (pools : option nat) (op : A -> R) (sols : list A) (t : ptree (nat * A)),
-  pools <> Some 0%nat -> pflatten t = enumerate sols ->
+  pflatten t = enumerate sols ->
   values (search_many pools op t) = Some (map op sols).
 Proof.
-  intros pools op sols t Hp Ht. unfold search_many. rewrite parallel_collect_eq_map, Ht.
+  intros pools op sols t Ht. unfold search_many. rewrite parallel_collect_eq_map, Ht.
   rewrite <- (map_snd_enumerate A sols) at 2. rewrite map_map.
   generalize (enumerate sols) as l. induction l as [|[i s] l IH]; cbn [map values]; [reflexivity|].
-  rewrite IH. unfold thread_pool_execute. destruct pools as [[|n]|]; [congruence|reflexivity|reflexivity].
+  rewrite IH. unfold thread_pool_execute. destruct pools as [[|n]|]; reflexivity.
 Qed.
 
 Theorem search_many_pool_independent : forall (p1 p2 : option nat) (op : A -> R) (sols : list A) (t1 t2 : ptree (nat * A)),
-  p1 <> Some 0%nat -> p2 <> Some 0%nat -> pflatten t1 = enumerate sols -> pflatten t2 = enumerate sols ->
+  pflatten t1 = enumerate sols -> pflatten t2 = enumerate sols ->
   values (search_many p1 op t1) = values (search_many p2 op t2).
 Proof. intros. rewrite !(search_many_values _ op sols) by assumption. reflexivity. Qed.
 
@@ -707,12 +707,27 @@ Proof.
   cbn [thread_pool_execute fst] in Hp. destruct Hp as [<-|[]]. apply Nat.mod_upper_bound. discriminate.
 Qed.
 
-(* Parallelism::new(0, _): `idx % 0` — every dispatched task panics *)
-Theorem search_many_zero_pools_panics : forall (op : A -> R) (t : ptree (nat * A)),
-  pflatten t <> [] -> values (search_many (Some 0%nat) op t) = None.
+(* Parallelism::new(0, _) (an empty vector of pools): every task runs without a pool *)
+Theorem search_many_zero_pools_inline : forall (op : A -> R) (t : ptree (nat * A)),
+  search_many (Some 0%nat) op t = search_many None op t /\ pools_used (search_many (Some 0%nat) op t) = [].
 Proof.
-  intros op t H. unfold search_many. rewrite parallel_collect_eq_map.
+  intros op t. unfold search_many. rewrite !parallel_collect_eq_map. split; [reflexivity|].
+  unfold pools_used. induction (pflatten t) as [|x l IH]; [reflexivity|]. cbn [map flat_map thread_pool_execute app]. exact IH.
+Qed.
+
+(* the function before /repo b5c201c (finding C15-F2, repaired): with an empty vector of pools `idx % 0` — every dispatched task
+   panicked; for every other setting it was the present function *)
+Theorem search_many_zero_pools_panics_prefix : forall (op : A -> R) (t : ptree (nat * A)),
+  pflatten t <> [] -> values (search_many_prefix (Some 0%nat) op t) = None.
+Proof.
+  intros op t H. unfold search_many_prefix. rewrite parallel_collect_eq_map.
   destruct (pflatten t) as [|x l]; [congruence|]. reflexivity.
+Qed.
+
+Theorem search_many_prefix_agrees : forall (pools : option nat) (op : A -> R) (t : ptree (nat * A)),
+  pools <> Some 0%nat -> search_many_prefix pools op t = search_many pools op t.
+Proof.
+  intros pools op t H. unfold search_many_prefix, search_many. destruct pools as [[|n]|]; [congruence|reflexivity|reflexivity].
 Qed.
 End PoolsP.
 
